@@ -149,6 +149,54 @@ def run_c19(tier, seed, replay=None):
                     out.samples.append({"fixture": name, "clients": clients, "ops_and_responses": [f"{o[:90]} => {r[:90]}" for o, r in new[:12]]})
             for o in ops:
                 k = o.split()[0]; out.dist[k] = out.dist.get(k, 0) + 1
+            # ---- (4) the same directory as the SERVER BINARY finds it: a fresh copy that nothing has opened
+            # since the pinned release left it, served over loopback HTTP, then killed and inspected
+            if tier == "thorough" or name.startswith("wal") or name in ("hist0", "big"):
+                okb, srv, blog = build.build_server_bin()
+                if not okb:
+                    raise RuntimeError("server binary build failed\n" + blog)
+                shutil.copytree(os.path.join(d, "data"), os.path.join(tmp, "data2"))
+                d2 = os.path.join(tmp, "data2")
+                ops2 = [f"loadstate {d}/ids.txt", f"bootdir {d2}"]
+                nreq = 0
+                for c in clients:
+                    acc = accepted.get(c, [])
+                    idx = list(range(len(acc))) if len(acc) <= 14 else sorted(set(list(range(4)) + list(range(len(acc) - 8, len(acc))) + [len(acc) // 2]))
+                    for i in idx:
+                        par = f"base:{c}" if i == 0 else f"ver:{c}:{i - 1}"
+                        ops2.append(f"http@0 GET gcv hyph={par} hyph={c} absent e"); nreq += 1
+                    ops2.append(f"http@0 GET snap - hyph={c} absent e")
+                ops2 += ["kill", f"usedir {d2}", "dumpall"]
+                text2 = f"case {name}-bin\n" + "\n".join(ops2) + "\nend\n"
+                p2 = subprocess.run([binp, "bin"], input=text2, capture_output=True, text=True,
+                                    env=dict(ENV, TSS_SERVER_BIN=srv, VERIF_SEED=str(seed)), timeout=1200)
+                case2 = Case(f"fixture-{name}-bin", ops2, {"fixture": name, "bin": True}, mode="bin")
+                out.evaluations += 1
+                new2 = parse_trace(p2.stdout)
+                msgs2 = []
+                if p2.returncode != 0:
+                    msgs2.append(f"the server binary could not be driven on fixture `{name}` (harness exit {p2.returncode}): {p2.stderr[-300:]}")
+                if not any(o.startswith("mark bootdir up=1") for o, _ in new2):
+                    msgs2.append(f"the server binary did not come up on the data directory of fixture `{name}`")
+                from .props_http import HOp, HResp
+                for (o, r) in new2:
+                    if o.startswith("http ") and HOp(o).route == "gcv":
+                        hr = HResp(r)
+                        if hr.status != 200:
+                            msgs2.append(f"fixture `{name}` served by the binary: `{o[:70]}` (a recorded version of the pinned release) answered {hr.status}")
+                got2 = [(o, r) for o, r in new2 if o.startswith("dump ")][:len(want)]
+                for (ow, rw), (og, rg) in zip(want, got2):
+                    cw, cg = Dump(rw), Dump(rg)
+                    if not cg.ok or cw.key(False) != cg.key(False, cw.by_id.keys()):
+                        msgs2.append(f"fixture `{name}`: after the server binary ran on the directory a client record differs: pinned `{rw[:200]}` / now `{rg[:200]}`")
+                if len(got2) < len(want):
+                    msgs2.append(f"fixture `{name}`: after the server binary ran on the directory fewer clients are served ({len(got2)}) than recorded ({len(want)})")
+                if msgs2:
+                    problems.append((case2, [("oracle", m, "sqlite", None) for m in msgs2[:4]], {"sqlite": [(o, r, r) for o, r in new2]}))
+                else:
+                    out.validated += 1
+                out.dist["bootdir"] = out.dist.get("bootdir", 0) + 1
+                out.dist["http"] = out.dist.get("http", 0) + nreq
         finally:
             shutil.rmtree(tmp, ignore_errors=True)
     return finish(spec, tier, seed, proof, out, problems, None, t0, len(names),
